@@ -468,6 +468,22 @@ theorem C02_partial_beforeFixes (s : Inst) (room : Nat) (b : Batch) (hn : NodupI
     · exact Or.inl h
     · exact Or.inr ⟨e, he, hk⟩
 
+/-- **C02 (rows, node deletion records), for the code as it is, no guard.** Apply after the three repairs
+    replace-other-entity, deletion-of-other-room, deletion-entity-mismatch: every check that bears on a received row or
+    node deletion record is then in place in `Defects.asImplemented` (`by decide`), and the statement of `C02_rows` and of
+    the node half of `C02_deletion_logs` holds for the code as it is, for every state, every room history, every batch. -/
+theorem C02_rows_asImplemented (s : Inst) (room : Nat) (b : Batch) (hn : NodupIds s.nodes) :
+    (∀ x ∈ (syncDay Defects.asImplemented s room b).1.nodes, x ∉ s.nodes →
+      ∃ n ∈ b.nodes, n.row = x ∧ NodeOk (st2 Defects.asImplemented s room b) room n) ∧
+    (∀ x ∈ s.nodes, x ∉ (syncDay Defects.asImplemented s room b).1.nodes →
+      (∃ r ∈ b.nodeDels, x.room = some r.entry.room ∧ x.id = r.entry.id ∧
+        NodeDelOk (st1 Defects.asImplemented s room b) room r) ∨
+      (∃ n ∈ b.nodes, n.row.id = x.id ∧ localRow (st2 Defects.asImplemented s room b).nodes n.row.id = some x ∧
+        NodeOk (st2 Defects.asImplemented s room b) room n)) ∧
+    (∀ t ∈ (syncDay Defects.asImplemented s room b).1.nodeLog, t ∉ s.nodeLog →
+      ∃ r ∈ b.nodeDels, r.entry = t ∧ NodeDelOk (st1 Defects.asImplemented s room b) room r) :=
+  C02_rows_when Defects.asImplemented (by decide) s room b hn
+
 /-! ## 5. non-vacuity -/
 
 -- an honest day in `world`: key 2 adds an `A` row, a reference from it, deletes its own older row;
